@@ -131,7 +131,7 @@ class C11(Check):
     RUNS = {"quick": 1500, "thorough": 30000}
     N_OPS = {"quick": (8, 24), "thorough": (10, 40)}
     RULE = ("seeded dependency graphs (managed / unmanaged dependencies, '*', attribute and property chains with cached and "
-            "uncached links, subclass dependants, caches filled in __post_init__) x seeded histories of reads, overrides and "
+            "uncached links, derived values named like private helpers (_p<i>), subclass dependants, caches filled in __post_init__) x seeded histories of reads, overrides and "
             "every mutation entry point (in place / copy-on-write, some failing by ill-typed value or injected callback fault). "
             "evaluations = operations + oracle reads; distinct_nontrivial = distinct (mutation entry point, in-place flag, outcome, "
             "set of dependant kinds in the invalidation closure (cached prop / uncached prop / attribute), chain depth).")
